@@ -48,8 +48,25 @@ def hash_definition(func: Callable) -> str:
         source = inspect.getsource(func)
     except (OSError, TypeError):
         source = None
-    if source is not None:
-        h = hashlib.sha256(source.encode())
+    code = getattr(func, "__code__", None)
+    if source is not None or code is not None:
+        h = hashlib.sha256()
+        if source is not None:
+            h.update(source.encode())
+        if code is not None:
+            # The code object as well: inspect.getsource returns the whole line
+            # for a lambda, so two lambdas written on one line share their text;
+            # functions without source (exec/eval/Jupyter) have nothing else.
+            h.update(code.co_code)
+            # Serialize co_consts deterministically (replace nested code objects with names)
+            consts_serialized = tuple(c if not hasattr(c, "co_name") else c.co_name for c in code.co_consts)
+            h.update(repr(consts_serialized).encode())
+            # Names of the globals, attributes and methods the code uses:
+            # x.upper() and x.lower() have equal co_code and co_consts
+            h.update(repr(code.co_names).encode())
+            # Include function defaults to distinguish f(x=1) from f(x=2)
+            h.update(repr(getattr(func, "__defaults__", None)).encode())
+            h.update(repr(getattr(func, "__kwdefaults__", None)).encode())
         # Functions made by one factory share their source text and differ only
         # in what they captured: the captured values are part of the definition.
         for cell in getattr(func, "__closure__", None) or ():
@@ -57,31 +74,12 @@ def hash_definition(func: Callable) -> str:
                 h.update(repr(cell.cell_contents).encode())
             except ValueError:
                 h.update(b"<empty_cell>")
-        return h.hexdigest()
-
-    # Bytecode fallback — for exec/eval/Jupyter-defined functions
-    code = getattr(func, "__code__", None)
-    if code is not None:
-        h = hashlib.sha256()
-        h.update(code.co_code)
-
-        # Serialize co_consts deterministically (replace nested code objects with names)
-        consts_serialized = tuple(c if not hasattr(c, "co_name") else c.co_name for c in code.co_consts)
-        h.update(repr(consts_serialized).encode())
-
-        # Include function defaults to distinguish f(x=1) from f(x=2)
-        h.update(repr(getattr(func, "__defaults__", None)).encode())
-        h.update(repr(getattr(func, "__kwdefaults__", None)).encode())
-
-        # Include closure values to distinguish functions with different captured variables
-        closure = getattr(func, "__closure__", None)
-        if closure:
-            for cell in closure:
-                try:
-                    h.update(repr(cell.cell_contents).encode())
-                except ValueError:
-                    h.update(b"<empty_cell>")
-
+        # A bound method captures its instance the way a closure captures a cell:
+        # Scaler(2).apply and Scaler(10).apply are different definitions.
+        bound_to = getattr(func, "__self__", None)
+        if bound_to is not None and not inspect.ismodule(bound_to):
+            h.update(type(bound_to).__qualname__.encode())
+            h.update(repr(getattr(bound_to, "__dict__", bound_to)).encode())
         return h.hexdigest()
 
     # Name-based fallback — for builtins/C extensions/functools.partial
